@@ -15,10 +15,12 @@ Proof.
   induction rem as [|rem IH]; intros a s r s' Ha Hs H; simpl in H.
   - inversion H; subst; auto.
   - destruct (cf p i a).
-    + destruct rem; [inversion H; subst; auto|]. eapply IH; eauto.
+    + destruct (catchable (compute_exn p i a)); [|inversion H; subst; auto].
+      destruct rem; [inversion H; subst; auto|]. eapply IH; eauto.
     + destruct (act s) as [[u|e] s1] eqn:E.
       * inversion H; subst. eauto.
-      * destruct rem; [inversion H; subst; eauto|]. eapply IH; [exact Ha| |exact H]. eauto.
+      * destruct (catchable e); [|inversion H; subst; eauto].
+        destruct rem; [inversion H; subst; eauto|]. eapply IH; [exact Ha| |exact H]. eauto.
 Qed.
 
 Lemma tasks_pres : forall (A : Type) p (act : nat -> A -> st -> res unit * st) m xs i s r s',
@@ -29,7 +31,8 @@ Proof.
   - inversion H; subst; auto.
   - destruct (attempts p (act i x) i m 1 s) as [[u|e] s1] eqn:E.
     + eapply IH; [exact Ha| |exact H]. eapply attempts_pres; [|exact Hs|exact E]. intros; eapply Ha; eauto.
-    + inversion H; subst. eapply attempts_pres; [|exact Hs|exact E]. intros; eapply Ha; eauto.
+    + assert (P s1) by (eapply attempts_pres; [|exact Hs|exact E]; intros; eapply Ha; eauto).
+      unfold task_boundary in H. destruct runjob_local_kind; [|destruct (is_stop e)]; inversion H; subst; auto.
 Qed.
 
 Lemma run_job_pres : forall (body : st -> res unit * st) s r s',
